@@ -220,5 +220,11 @@ def stepLength (dz ds z s : V3 α) (step aMin aMax : α) (fuel : Nat) : MErr (α
   let as ← backtrackSearch (v3toArray ds) (v3toArray s) aMax aMin step inPrimal fuel
   pure (az, as)
 
+/-- `combined_ds_shift`: `shift = grad·σμ - η` with `η = higher_correction(step_s, step_z)` (the
+third-order correction is called with `ds := step_s`, `v := step_z`) -/
+def combinedDsShift (H : Sym3 α) (grad z stepZ stepS : V3 α) (σμ : α) : V3 α :=
+  let η := higherCorrection H z stepS stepZ
+  (grad.1 * σμ - η.1, grad.2.1 * σμ - η.2.1, grad.2.2 * σμ - η.2.2)
+
 end Exp
 end Clarabel
